@@ -546,3 +546,164 @@ def str_path_comparisons(repo):
 def effective_body(func):
     """statements of a function body that do something: docstrings / bare constants and `pass` are dropped"""
     return [s for s in func.body if not isinstance(s, ast.Pass) and not (isinstance(s, ast.Expr) and isinstance(s.value, ast.Constant))]
+
+
+# ---------------------------------------------------------------------------- UNBOUND rule
+def _bound_names(node):
+    """names bound by the CFG node's own statement header"""
+    out = set()
+    a = node.ast
+    if a is None:
+        return out
+    if node.kind == 'for':
+        return {x.id for x in ast.walk(a.target) if isinstance(x, ast.Name)}
+    if node.kind == 'with':
+        for it in a.items:
+            if it.optional_vars is not None:
+                out |= {x.id for x in ast.walk(it.optional_vars) if isinstance(x, ast.Name)}
+        return out
+    if node.kind == 'handler':
+        return {a.name} if getattr(a, 'name', None) else out
+    if node.kind == 'test':
+        return {x.target.id for x in ast.walk(a) if isinstance(x, ast.NamedExpr) and isinstance(x.target, ast.Name)}
+    if isinstance(a, (ast.FunctionDef, ast.AsyncFunctionDef, ast.ClassDef)):
+        return {a.name}
+    if isinstance(a, (ast.Import, ast.ImportFrom)):
+        return {(al.asname or al.name).split('.')[0] for al in a.names}
+    if isinstance(a, ast.stmt):
+        comp = set()
+        for x in ast.walk(a):
+            if isinstance(x, ast.comprehension):
+                comp |= {id(t) for t in ast.walk(x.target) if isinstance(t, ast.Name)}
+        for x in ast.walk(a):
+            if isinstance(x, ast.Name) and isinstance(x.ctx, ast.Store) and id(x) not in comp:
+                out.add(x.id)
+            if isinstance(x, ast.NamedExpr) and isinstance(x.target, ast.Name):
+                out.add(x.target.id)
+    return out
+
+
+def _used_names(node, candidates):
+    """candidate local names read by the CFG node's own header (comprehension variables and nested function bodies excluded)"""
+    a = node.ast
+    if a is None or node.kind in ('join', 'dispatch'):
+        return set()
+    hdr = [a]
+    if node.kind == 'for':
+        hdr = [a.iter]
+    elif node.kind == 'with':
+        hdr = [i.context_expr for i in a.items]
+    elif node.kind == 'handler':
+        hdr = [a.type] if a.type is not None else []
+    elif isinstance(a, (ast.FunctionDef, ast.AsyncFunctionDef, ast.ClassDef)):
+        hdr = list(a.decorator_list)
+    used = set()
+
+    def visit(x, shadow):
+        if isinstance(x, (ast.FunctionDef, ast.AsyncFunctionDef, ast.ClassDef)):
+            for d in x.decorator_list:
+                visit(d, shadow)
+            return
+        if isinstance(x, ast.Lambda):
+            return
+        if isinstance(x, (ast.ListComp, ast.SetComp, ast.GeneratorExp, ast.DictComp)):
+            sh = set(shadow)
+            for i, g in enumerate(x.generators):
+                visit(g.iter, shadow if i == 0 else sh)
+                sh |= {t.id for t in ast.walk(g.target) if isinstance(t, ast.Name)}
+                for i_ in g.ifs:
+                    visit(i_, sh)
+            if isinstance(x, ast.DictComp):
+                visit(x.key, sh)
+                visit(x.value, sh)
+            else:
+                visit(x.elt, sh)
+            return
+        if isinstance(x, ast.Name):
+            if isinstance(x.ctx, (ast.Load, ast.Del)) and x.id in candidates and x.id not in shadow:
+                used.add(x.id)
+            return
+        for ch in ast.iter_child_nodes(x):
+            visit(ch, shadow)
+    for h in hdr:
+        if h is not None:
+            visit(h, set())
+    return used
+
+
+def possibly_unbound(func):
+    """[(use_cfg_node, name, witness_path_text)]: reads of a local that some path from the entry reaches without passing a binding.
+    Paths are followed without exception edges; two tests with the same text whose names are not re-bound in the function are taken the same
+    way (`if flag: x = ..` ... `if flag: use(x)` is consistent)."""
+    c = cfg_of(func)
+    ps = set(params(func))
+    if func.args.vararg:
+        ps.add(func.args.vararg.arg)
+    if func.args.kwarg:
+        ps.add(func.args.kwarg.arg)
+    assigned = {}
+    for n in c.nodes:
+        for nm in _bound_names(n):
+            assigned.setdefault(nm, []).append(n)
+    decl = set()
+    for x in own_nodes(func):
+        if isinstance(x, (ast.Global, ast.Nonlocal)):
+            decl |= set(x.names)
+    locals_ = set(assigned) - ps - decl
+    if not locals_:
+        return []
+    # names bound at more than one place (or loop variables) may change between two tests of the same text
+    rebound = {k for k, v in assigned.items() if len(v) > 1 or any(d.kind == 'for' for d in v)}
+    out = []
+    from collections import deque
+    for n in c.nodes:
+        for nm in sorted(_used_names(n, locals_)):
+            defs = {d.id for d in assigned[nm] if d is not n}
+            if n is c.entry:
+                out.append((n, nm, 'entry'))
+                continue
+            # BFS over (node, known test outcomes)
+            start = (c.entry.id, frozenset())
+            prev = {start: None}
+            dq = deque([(c.entry, frozenset())])
+            found = None
+            while dq and found is None:
+                cur, known = dq.popleft()
+                for m, k in cur.succ:
+                    if k == 'exc':
+                        continue
+                    kn = known
+                    if cur.kind == 'test' and k in ('T', 'F') and cur.ast is not None:
+                        names = {x.id for x in ast.walk(cur.ast) if isinstance(x, ast.Name)}
+                        pure = not any(isinstance(x, (ast.Call, ast.Await, ast.NamedExpr)) for x in ast.walk(cur.ast))
+                        if pure and not (names & (rebound - ps)) and not (names & {nm}):
+                            t = norm(cur.ast)
+                            d = dict(known)
+                            if t in d and d[t] != (k == 'T'):
+                                continue
+                            d[t] = (k == 'T')
+                            kn = frozenset(d.items())
+                    if m.id == n.id:
+                        found = (cur, k, known)
+                        break
+                    if m.id in defs:
+                        continue
+                    key = (m.id, kn)
+                    if key in prev:
+                        continue
+                    prev[key] = (cur.id, known, k)
+                    dq.append((m, kn))
+            if found is not None:
+                # rebuild a short description
+                cur, k, known = found
+                path = [(n, None), ]
+                key = (cur.id, known)
+                chain = [(cur, k)]
+                while prev.get(key) is not None:
+                    pid, pknown, pk = prev[key]
+                    pn = next(x for x in c.nodes if x.id == pid)
+                    chain.append((pn, pk))
+                    key = (pid, pknown)
+                chain.reverse()
+                out.append((n, nm, c.describe(chain + [(n, None)])))
+    return out
